@@ -14,6 +14,7 @@ def main():
     doc = json.load(open(sys.argv[1]))
     api.MODEL.clear()
     api.MODEL.update(doc.get("model") or {})
+    api.install_ghost_clock()
     mod = importlib.import_module(doc["sidecar"])
     h = api.HARNESSES[doc["harness"]]
     for s in doc.get("uses", []):
